@@ -1,5 +1,5 @@
 """C15 - compose ids encode date, type and respin recoverably."""
-from productmd.composeinfo import ComposeInfo, get_date_type_respin, COMPOSE_TYPES
+from productmd.composeinfo import ComposeInfo, Variant, get_date_type_respin, COMPOSE_TYPES
 from productmd.common import RELEASE_TYPES
 
 PROPERTY = "C15"
@@ -8,9 +8,14 @@ SHORTC = ["a-z", "A-Z", "0-9", "-", "_"]
 VERC = ["a-z", "A-Z", "0-9", "."]
 
 
-def create_decode(sym, rtype, layered, bp_type, ctype, n_short, n_ver, respin_max):
-    """the created id starts with short-version[-type], validates, and decodes to (date, type, respin)"""
+def create_decode(sym, rtype, layered, bp_type, ctype, n_short, n_ver, respin_max, variants=()):
+    """the created id starts with short-version[-type], validates, and decodes to (date, type, respin).
+    variants: top-level variants of the compose (the id of a RHEL 5 compose on RHEL 5 carries the first of Client / Server)"""
     ci = ComposeInfo()
+    for vid in variants:
+        v = Variant(ci)
+        v.id, v.uid, v.name, v.type, v.arches = vid, vid, vid, "variant", set(["x86_64"])
+        ci.variants.add(v)
     short = sym.str("short", n_short, minlen=1, alphabet=SHORTC)
     version = sym.str("version", n_ver, minlen=1, alphabet=VERC)
     ci.release.short = short
@@ -121,6 +126,12 @@ def jobs(tier, seed):
         for ct in lct:
             out.append({"harness": "create_decode", "params": {"rtype": rt, "layered": True, "bp_type": bt, "ctype": ct,
                                                               "n_short": 3, "n_ver": 9 if big else 4, "respin_max": 10 ** 8 - 1}})
+    # short names of four characters (so that the RHEL 5 on RHEL 5 special case is inside the bound) and composes that have variants
+    for vi, variants in enumerate((["Server"], ["Client", "Workstation"], ["Everything", "Server"], [])):
+        for ci_, ct in enumerate(ctypes):
+            if big or (vi + ci_ + seed) % 2 == 0:
+                out.append({"harness": "create_decode", "params": {"rtype": "ga", "layered": True, "bp_type": "ga", "ctype": ct, "n_short": 4, "n_ver": 3,
+                                                                  "respin_max": 999, "variants": variants}})
     for suf, ct in SUFFIXES:
         for wr in (False, True):
             out.append({"harness": "decode_documented", "params": {"suffix": suf, "ctype": ct, "with_respin": wr, "n_prefix": 12 if big else 8}})
@@ -136,6 +147,8 @@ def jobs(tier, seed):
 META = {
     "expected_covers": {"create_decode": ["created", "decoded"], "decode_documented": ["decoded"], "decode_unknown": ["called"], "legacy_reader": ["loaded", "rewritten"]},
     "assumptions": [
+        "composes with top-level variants (Server / Client+Workstation / Everything+Server / none) and layered releases with 4-character short names, which puts the "
+        "RHEL 5 on RHEL 5 id format inside the bound",
         "release short names over [A-Za-z0-9_-], versions over [A-Za-z0-9.] accepted by the release validators; dates are 8 ASCII digits; respin in [0, 10^8)",
         "legacy (pre-0.3) documents: the conversion harness of C05 (layout 0.0-0.2, every compose type); the document may also carry type/date/respin fields "
         "that disagree with the id - before 0.3 the id is authoritative",
